@@ -103,7 +103,8 @@ def max_phase_gap(sample, data):
     data : `~thejoker.RVData`
     """
     phase = np.sort(data.phase(sample['P']))
-    phase = np.concatenate((phase, phase))
+    # append the first cycle shifted by one so the arc across phase 1 -> 0 is included
+    phase = np.concatenate((phase, phase + 1))
     return (phase[1:] - phase[:-1]).max()
 
 
